@@ -61,6 +61,8 @@ def make_sorted(tag, elements=True, order=True):
         if len(args) != 1 or kwargs:
             raise Unsupported("sorted(key=/reverse=)", node)
         v = _models.materialize(ex, args[0])
+        if isinstance(v.ty, T.Dict) and not v.is_py:
+            v = Val(T.Set(v.ty.k), v.ty.sort().dom(lift(v)))  # sorted(d) sorts the keys of d
         if isinstance(v.ty, T.Set) and not v.is_py and v.ty.elem in (STR, INT, REAL):
             # a SET: the result enumerates exactly its elements, each once, so the order is strict
             et = v.ty.elem
@@ -329,7 +331,9 @@ def gdef_cases(rng, n):
             if rng.random() < 0.15:
                 names.append(None)  # an unnamed anchor
             glyphs[nm] = {"anchors": [[an, rng.choice([100, 100.4, 100.5, 250, 99.6, 0, -20.5]), rng.choice([0, 300, 300.5, 10])] for an in names]}
-        out.append({"glyphs": glyphs, "skip": rng.choice([[], ["skipped"], ["skipped", "b"]]),
+        order = list(_GLYPH_NAMES)
+        rng.shuffle(order)  # an explicit glyph order that is NOT alphabetical (without one the exported glyphs come sorted by name)
+        out.append({"glyphs": glyphs, "order": order, "skip": rng.choice([[], ["skipped"], ["skipped", "b"]]),
                     "names": rng.sample(_GLYPH_NAMES + ["ghost"], rng.randint(0, 5)), "g": rng.choice(_GLYPH_NAMES + ["ghost"]), "a": rng.choice(_ANCHOR_NAMES)})
     return out
 
@@ -342,7 +346,7 @@ def gdef_writer(d):
     from . import c17, rtlib
 
     logging.getLogger("ufo2ft").setLevel(logging.CRITICAL)
-    ufo = rtlib.build_ufo({"glyphs": d["glyphs"], "lib": {"public.skipExportGlyphs": list(d["skip"])} if d["skip"] else {}})
+    ufo = rtlib.build_ufo({"glyphs": d["glyphs"], "order": d.get("order") or list(d["glyphs"]), "lib": {"public.skipExportGlyphs": list(d["skip"])} if d["skip"] else {}})
     w = GdefFeatureWriter()
     w.setContext(ufo, c17.parse_fea(""))
     return w
